@@ -11,7 +11,7 @@ ops:
                                                            | {"ok":[[[ref,start,end,file,ds,de]…]…]}   (one list per model)
                                                            | {"crash":true}
   {"op":"posdict","tree":{"id","s","e","kids":[…]}}        → {"dict":[[s,e,id]…]}
-  {"op":"tools","files":…,"ans":…,"trees":[tree…]}         → the `error_loc` answer plus "dicts":[[[s,e,id]…]…]
+  {"op":"tools","files":…,"ans":…,"trees":[tree…]}         → the `error_loc` answer plus "dicts":[[[s,e,id]…]…], "geo":[bool…] (`PosDict.geo` of every tree)
 -/
 open Lean Wire
 
@@ -110,7 +110,8 @@ def handle (j : Json) : Json :=
     match (getArr? j "files").bind (fun a => a.toList.mapM parseFile), (getArr? j "ans").bind parseAns,
           (getArr? j "trees").bind (fun a => a.toList.mapM parseTree) with
     | some files, some tbl, some trees =>
-      Json.mkObj (runJson files tbl ++ [("dicts", Json.arr (trees.map dictJson).toArray)])
+      Json.mkObj (runJson files tbl ++ [("dicts", Json.arr (trees.map dictJson).toArray),
+        ("geo", Json.arr (trees.map (fun t => toJson (PosDict.geo t))).toArray)])
     | _, _, _ => badOp
   | some "posdict" =>
     match (getObj? j "tree").bind parseTree with
